@@ -123,6 +123,16 @@ def exec_rules(ctx, prog):
     if n < 4:
         raise AnalysisBroken("C03: only %d exec events" % n)
     ctx.floor("C03.P1", 4)
+    # P2m: once built, the environment array is handed to the child as it is: process_start itself never writes into the block
+    bad = []
+    for e in events:
+        if e[0] == "store-heap":
+            c, st = e[3][0], e[4]
+            b = cell_base(c)
+            if b[0] == "heap" and b[1] == st.mon.get("concat_tok"):
+                bad.append(site_of(e[1], e[2]))
+    ctx.ob("C03.P2m", "process_start: environment array", "nothing is stored into the array strv_concat returned (its entries reach exec "
+           "exactly as copied from the parent's environment and the extra entries)", not bad, {"stores": sorted(set(bad))[:4]}, nontrivial=True)
     # reproc_start hands its own argv on
     R = prog.fn("reproc_start")
     ps = [c for c in R.calls("process_start")]
